@@ -9,8 +9,12 @@
 //!   proof <self> <n> (<enc> <pubkey> <signer> F_signed F_presented)*n -> <verify_for> payees=<..> byself=<k>
 //!   exp <offset ns> | pexp <offset ns>...                 -> true|false    (timestamp = now + offset; has_expired)
 //!   hist <offA> <liveA> <paidA> <offB> <liveB> <paidB>    -> <A.historical_verify(B)> <A.is_newer_than(B)>
+//!   kpair <pubkey 1> <pubkey 2> <signer> F                -> <verify 1> <verify 2> <hash 1 == hash 2>   (claimed = the peer of pubkey 1)
 //! Tokens: K<i> protobuf of key i, P<i> its PeerId, X<r> an unrelated PeerId, G<n> undecodable bytes,
-//!         S<j> signature by key j over bytes_for_signing(F_signed).
+//!         S<j> signature by key j over bytes_for_signing(F_signed),
+//!         N<i> key i's protobuf followed by an unknown field (`18 00`): not canonical, decodes to the same key,
+//!         W0 as a key: the small-order point `01 00*31` (the curve's neutral element), Q0 its PeerId;
+//!         W0 as a signature: `01 00*31 ‖ 00*32`, which ed25519 verification (non-strict) accepts under W0 for every message.
 //! The code reads the clock itself: offsets are generated half a second inside each class (and the op is
 //! retried if the call took unusually long), so the verdict cannot depend on the harness's clock reading.
 use ant_evm::{EncodedPeerId, PaymentQuote, ProofOfPayment, QuotingMetrics, RewardsAddress};
@@ -205,6 +209,9 @@ fn sig_tok(s: &str, signed: &F) -> Option<Vec<u8>> {
     })
 }
 fn peer_show(p: &PeerId) -> String {
+    if Some(*p) == weak_peer() {
+        return "Q0".into();
+    }
     for i in 0..NKEYS + 2 {
         if *p == peer_p(i) {
             return format!("P{i}");
@@ -393,7 +400,11 @@ fn oracle(line: &str, res: &str, out: &mut Out, seen: &mut HashMap<String, F>) {
         if fs.differs_only_subsecond(fp) {
             return None; // known finding K-i: outside the hypothesis of the partial theorem
         }
-        let k = tag(key, 'K');
+        if key == "W0" && signer == "W0" {
+            return None; // known finding K-w: the scheme is ideal for prime-order keys only
+        }
+        // a non-canonical encoding is still that key (the text's "altering the key" is up to decoding)
+        let k = tag(key, 'K').or_else(|| tag(key, 'N'));
         Some(k.is_some() && tag(claimed, 'P') == k && tag(signer, 'S') == k && fs.same_signed_fields(fp))
     };
     match ws[0] {
@@ -413,6 +424,12 @@ fn oracle(line: &str, res: &str, out: &mut Out, seen: &mut HashMap<String, F>) {
         "verify" => {
             let (Some((fs, _)), Some((fp, _))) = (F::parse(&ws[4..]), F::parse(&ws[14..])) else { return };
             match entry_valid(ws[1], ws[2], ws[3], &fs, &fp) {
+                None if ws[2] == "W0" && !fs.differs_only_subsecond(&fp) => {
+                    out.count("oracle-skipped:K-w-weak-key");
+                    if ws[1] == "Q0" && res == "true" && !fs.same_signed_fields(&fp) {
+                        out.count("weak-key:verifies-with-altered-fields");
+                    }
+                }
                 None => out.count("oracle-skipped:K-i-subsecond"),
                 Some(want) => {
                     if res != want.to_string() {
@@ -432,27 +449,33 @@ fn oracle(line: &str, res: &str, out: &mut Out, seen: &mut HashMap<String, F>) {
             let mut payees = vec![];
             let mut byself = 0;
             let mut skip = false;
+            let mut skip_weak = false;
             for _ in 0..n {
                 let Some((e, used)) = parse_entry(&ws[i..]) else { return };
                 i += used;
-                let dec = tag(&e.enc_tok, 'P').is_some() || tag(&e.enc_tok, 'X').is_some();
+                let dec = tag(&e.enc_tok, 'P').is_some() || tag(&e.enc_tok, 'X').is_some() || e.enc_tok == "Q0";
                 if dec {
                     payees.push(e.enc_tok.clone());
                 }
-                if let Some(k) = tag(&e.key_tok, 'K') {
+                if let Some(k) = tag(&e.key_tok, 'K').or_else(|| tag(&e.key_tok, 'N')) {
                     if format!("P{k}") == ws[1] {
                         byself += 1;
                     }
+                } else if e.key_tok == "W0" && ws[1] == "Q0" {
+                    byself += 1;
                 }
                 match entry_valid(&e.enc_tok, &e.key_tok, &e.sig_tok, &e.fs, &e.fp) {
-                    None => skip = true,
+                    None => {
+                        skip = true;
+                        skip_weak |= e.key_tok == "W0";
+                    }
                     Some(v) => all_ok &= dec && v,
                 }
             }
             let me_in = payees.iter().any(|p| p == ws[1]);
             let got_ok = res.starts_with("true");
             if skip {
-                out.count("oracle-skipped:K-i-subsecond");
+                out.count(if skip_weak { "oracle-skipped:K-w-weak-key" } else { "oracle-skipped:K-i-subsecond" });
             } else if got_ok != (me_in && all_ok) {
                 out.oracle_fail("proof-verifies-iff-payee-and-all-quotes-valid", line, &format!("verify_for = {got_ok}, self among payees = {me_in}, all quotes valid for their payees = {all_ok}"));
             }
@@ -482,6 +505,25 @@ fn oracle(line: &str, res: &str, out: &mut Out, seen: &mut HashMap<String, F>) {
             }
         }
         "pair" => {}
+        "kpair" => {
+            // two encodings of one key: same verdict (both must verify when signed by that key); the hash covers the raw bytes
+            let k1 = tag(ws[1], 'K').or_else(|| tag(ws[1], 'N'));
+            let k2 = tag(ws[2], 'K').or_else(|| tag(ws[2], 'N'));
+            let r: Vec<&str> = res.split(' ').collect();
+            if r.len() == 3 && k1.is_some() {
+                let want1 = tag(ws[3], 'S') == k1;
+                let want2 = want1 && k2 == k1;
+                if r[0] != want1.to_string() || r[1] != want2.to_string() {
+                    out.oracle_fail("verify-iff-own-key-and-signature-over-own-fields", line, &format!("got `{res}`, expected `{want1} {want2} ..`"));
+                }
+                if (r[2] == "true") != (ws[1] == ws[2]) {
+                    out.oracle_fail("hash-covers-signed-fields-key-and-signature", line, &format!("got `{res}`: the hash must differ exactly when the key bytes differ"));
+                }
+                if r[0] == "true" && r[1] == "true" && r[2] == "false" {
+                    out.count("noncanonical-key:same-signed-quote-other-hash");
+                }
+            }
+        }
         "qhash" => {
             // the quote hash is Keccak-256 over signing bytes ++ key ++ signature (tiny-keccak + own concatenation)
             use tiny_keccak::{Hasher, Keccak};
@@ -584,7 +626,33 @@ fn gen_entry(rng: &mut Rng, enc_kind: &str, in_proof: bool) -> String {
     let fs = gen_f(rng);
     let mut fp = fs.clone();
     let (mut claimed, mut key, mut signer) = (format!("{enc_kind}{i}"), format!("K{i}"), format!("S{i}"));
-    let class = match rng.below(20) {
+    let class = match rng.below(23) {
+        20 => {
+            // non-canonical encoding of the right key
+            key = format!("N{i}");
+            if rng.chance(1, 3) {
+                let w = *rng.pick(&[0u64, 1, 5, 9]);
+                mutate_field(rng, &mut fp, w);
+            }
+            "noncanonical-key"
+        }
+        21 => {
+            // the small-order key: its one signature, under its own or another claimed identity, fields altered or not
+            key = "W0".into();
+            signer = if rng.chance(3, 4) { "W0".into() } else { format!("S{i}") };
+            if !in_proof || rng.chance(1, 2) {
+                claimed = if rng.chance(3, 4) { "Q0".into() } else { format!("{enc_kind}{i}") };
+            }
+            if rng.chance(2, 3) {
+                let w = *rng.pick(&[0u64, 1, 3, 5, 6, 9]);
+                mutate_field(rng, &mut fp, w);
+            }
+            "weak-key"
+        }
+        22 => {
+            signer = "W0".into();
+            "weak-sig-strong-key"
+        }
         0..=6 => "valid",
         7..=10 => {
             let w = *rng.pick(&[0u64, 1, 3, 4, 5, 6, 7, 8, 9]);
@@ -705,6 +773,20 @@ fn main() {
         for off in [S / 2, 60 * S, -S / 2, -(3598 * S), -(3602 * S), -(3540 * S), -(3660 * S), -(3600 * S + S / 2), -(3601 * S + S / 2)] {
             v.push(format!("exp {off}"));
         }
+        {
+            let f = "0707070707070707070707070707070707070707070707070707070707070707 1700000000 100 1 2 3 4 N 5 0909090909090909090909090909090909090909";
+            let g = "0808080808080808080808080808080808080808080808080808080808080808 1800000000 7 9 9 9 9 N N 0101010101010101010101010101010101010101";
+            v.push(format!("verify Q0 W0 W0 {f} {f}"));
+            v.push(format!("verify Q0 W0 W0 {f} {g}"));
+            v.push(format!("verify P0 W0 W0 {f} {f}"));
+            v.push(format!("verify Q0 W0 S0 {f} {f}"));
+            v.push(format!("verify P0 N0 S0 {f} {f}"));
+            v.push(format!("verify P0 N0 S0 {f} {g}"));
+            v.push(format!("kpair K0 N0 S0 {f}"));
+        }
+        // K-i at the checker: two same-second quotes (paid 5, then 6) are consistent; with the unsigned sub-second parts swapped they are not
+        v.push(format!("hist {} 10 5 {} 10 6", -(100 * S + 3 * S / 10), -(100 * S + 2 * S / 10)));
+        v.push(format!("hist {} 10 5 {} 10 6", -(100 * S + 2 * S / 10), -(100 * S + 3 * S / 10)));
         v.push(format!("hist {} 11 10 {} 10 9", -(100 * S + S / 2), -(50 * S + S / 2)));
         v.push(format!("hist {} 10 10 {} 21 11", -(100 * S + S / 2), -(99 * S + S / 2)));
         v.push(format!("hist {} 10 10 {} 23 11", -(100 * S + S / 2), -(99 * S + S / 2)));
@@ -753,6 +835,13 @@ fn main() {
                     let (k, s2) = (rng.bytes(nk), rng.bytes(ns));
                     let hx = |b: &[u8]| if b.is_empty() { "-".to_string() } else { common::hex(b) };
                     v.push(format!("qhash {} {} {}", hx(&k), hx(&s2), gen_f(&mut rng).tokens()));
+                }
+                19 if rng.chance(1, 2) => {
+                    let i = rng.below(NKEYS);
+                    let j = if rng.chance(1, 5) { (i + 1) % NKEYS } else { i };
+                    let (a, b) = *rng.pick(&[("K", "N"), ("N", "K"), ("K", "K"), ("N", "N")]);
+                    let s = if rng.chance(1, 6) { (i + 1) % NKEYS } else { i };
+                    v.push(format!("kpair {a}{i} {b}{j} S{s} {}", gen_f(&mut rng).tokens()));
                 }
                 _ => {
                     // pair: same key/signature, two presentations
